@@ -56,6 +56,7 @@ def run(facts, rep, tier):
     fieldorder(F, rep)
     noattr(F, rep)
     jsonlink(F, rep)
+    structshape(F, rep)
 
 
 # ---------------------------------------------------------------------------------------------------------------
@@ -243,3 +244,61 @@ def jsonlink(F, rep):
                 rep.add(Finding("JSONLINK", "JSONLINK|%s|%s" % (suf.split("::")[-1], path),
                                 "%s no longer emits `%s` for the JSON helpers" % (suf.split("::")[-1], path),
                                 file=f.file, line=f.line, fn=f.path))
+
+
+# ---------------------------------------------------------------------------------------------------------------
+def structshape(F, rep):
+    """SHAPE — a model / class is emitted as a braced struct (`struct N { .. }`, JSON object) unless ALL its fields are
+    positional; `all()` over NO fields is vacuously true, so the positional test has to be guarded by a non-emptiness
+    test of the same field list — otherwise a field-less model becomes `struct N();` and serialises as `[]` instead
+    of `{}`."""
+    from engines import callee_generic, op_place, blocks_dominated_by_edge
+    from c09 import bool_edges
+    f = F.one_fn("IrEmitter<'a>>::emit_struct")
+    if not rep.anchor("SHAPE", "IrEmitter::emit_struct", f):
+        return
+
+    def from_fields(pl):
+        cur = pl
+        for _ in range(8):
+            if any(e[0] == "f" and e[1].endswith("IrStruct") and e[3] == "fields" for e in cur["p"]):
+                return True
+            d = f.single_def(cur["l"])
+            if d is None:
+                return False
+            if d[2] == "call" and d[3]["args"]:
+                nx = op_place(d[3]["args"][0])
+            elif d[2] == "assign" and d[3]["r"] in ("ref", "cfd"):
+                nx = d[3]["p"]
+            elif d[2] == "assign" and d[3]["r"] in ("use", "cast"):
+                nx = op_place(d[3]["o"])
+            else:
+                return False
+            if nx is None:
+                return False
+            cur = nx
+        return False
+
+    alls = [(bi, t) for bi, t in f.calls() if (callee_generic(t) or "").endswith("Iterator::all") and t["args"] and
+            op_place(t["args"][0]) is not None and from_fields(op_place(t["args"][0]))]
+    if not alls:
+        rep.notes.append("SHAPE: emit_struct does not decide the struct shape with Iterator::all over the fields; "
+                         "clause not decided")
+        return
+    nonempty = set()
+    for bi, t in f.calls():
+        g = callee_generic(t) or ""
+        if g.endswith("::is_empty") and t["args"] and op_place(t["args"][0]) is not None and \
+                from_fields(op_place(t["args"][0])) and not t["d"]["p"]:
+            for (a, b) in bool_edges(f, t["d"]["l"], False):
+                nonempty |= blocks_dominated_by_edge(f, a, b)
+    for i, (bi, t) in enumerate(alls):
+        ok = bi in nonempty
+        rep.oblige("SHAPE", "emit_struct:all#%d-under-nonempty" % (i + 1), ok,
+                   sample={"rule": "SHAPE", "line": t.get("ln"), "guarded_by_not_is_empty": ok})
+        if not ok:
+            rep.add(Finding("SHAPE", "SHAPE|emit_struct|vacuous-all",
+                            "emit_struct decides `tuple struct` with `fields.iter().all(..)` on a path where the field "
+                            "list may be empty: `all` over no fields is true, so a field-less model is emitted as "
+                            "`struct N();` and serialises as `[]` instead of the documented object `{}`",
+                            file=f.file, line=t.get("ln"), fn=f.path))
